@@ -132,6 +132,11 @@ twin("dup_counter_rewritten", "duplicate counter with dict.get",
 twin("regex_fullmatch_form", "non-capturing group kept, anchors \\\\A ... \\\\Z",
      [(J + "cli.py", '''re.compile(rf"^(?:{r})\\Z")''', '''re.compile(rf"\\A(?:{r})\\Z")''')])
 
+sys.path.insert(0, HERE)
+from twins_extra import EXTRA  # noqa: E402
+for _n, _w, _e in EXTRA:
+    twin(_n, _w, _e)
+
 
 def main():
     tmp = tempfile.mkdtemp(prefix="twins_")
